@@ -48,6 +48,7 @@ type KnownFile struct {
 
 // Run accumulates the results for one property.
 type Run struct {
+	only map[string]bool
 	Property    string
 	Tier        string
 	Seed        int64
@@ -73,8 +74,24 @@ func NewRun(property, tier string, seed int64) *Run {
 // obligations it must produce (guards against vacuous passes).
 func (r *Run) Rule(id, doc string, min int) {
 	r.curRule = id
+	if r.only != nil && !r.only[id] {
+		return // a rule function shared with another property: this property lists only some of its rules
+	}
 	r.RuleDocs[id] = doc
 	r.RuleMin[id] = min
+}
+
+// Only restricts recording to the listed rule ids until Only() is called with no arguments: obligations of other
+// rules are dropped. Used when a property shares part of another property's rule function.
+func (r *Run) Only(ids ...string) {
+	if len(ids) == 0 {
+		r.only = nil
+		return
+	}
+	r.only = map[string]bool{}
+	for _, id := range ids {
+		r.only[id] = true
+	}
 }
 
 // Use selects an already declared rule as the current one.
@@ -83,6 +100,9 @@ func (r *Run) Use(id string) { r.curRule = id }
 func (r *Run) add(o Obligation) {
 	if o.Rule == "" {
 		o.Rule = r.curRule
+	}
+	if r.only != nil && !r.only[o.Rule] {
+		return
 	}
 	r.Obls = append(r.Obls, o)
 }
